@@ -94,6 +94,14 @@ def authorize (facts : String → TokenFacts) (m : MTCfg) (now : Int) (r : Req) 
   | .error e => .reject 401 (parseErrReason e)
   | .ok tokenString => outcomeOf (verifyMT m now (facts tokenString) r.tenant)
 
+/-- what the rest of the gin chain sees of the middleware's decision: `none` = `c.Next()`,
+`some (status, reason)` = aborted with that answer (a panic is turned into 500 by the
+recovery middleware `Use`d first) -/
+def denyOf : Outcome → Option (Nat × String)
+  | .accept _ => none
+  | .reject s why => some (s, why)
+  | .panic => some (500, "panic")
+
 /-! ## The route functions' use of the token -/
 
 /-- `proxy.EndpointIDFromRequest`; `host` is `r.Host` with the port stripped as
